@@ -18,6 +18,7 @@ import (
 	"unsafe"
 
 	"connectrpc.com/vanguard/internal/verifsim/verifsync"
+	"connectrpc.com/vanguard/internal/verifsim/verifsync/simtime"
 )
 
 // ---------------------------------------------------------------------------------------
@@ -273,6 +274,13 @@ func (w *World) Block(site string, cond func() bool) bool {
 	}
 }
 
+// SleepMs parks the calling task for d simulated milliseconds (the clock jumps there when nothing else can run).
+func (w *World) SleepMs(d int64) {
+	target := w.now + d
+	w.After(d, func() {})
+	w.Block("sleep", func() bool { return w.now >= target })
+}
+
 // After schedules fn at now+d on the scheduler goroutine (no task is current while it runs).
 func (w *World) After(d int64, fn func()) {
 	w.seq++
@@ -383,6 +391,13 @@ func (t *hbToken) acquire() { raceAcquire(unsafe.Pointer(t)) }
 var activeWorld *World
 
 func init() {
+	simtime.Clock = func() (time.Duration, bool) {
+		w := activeWorld
+		if w == nil || w.cur == nil {
+			return 0, false
+		}
+		return time.Duration(w.now) * time.Millisecond, true
+	}
 	verifsync.Block = func(site string, cond func() bool) bool {
 		w := activeWorld
 		if w == nil || w.cur == nil {
